@@ -18,7 +18,7 @@ func init() {
 	Register("C04", &Info{
 		Run:   runC04,
 		Quick: 4500, Thor: 500000,
-		Rule: "a world = one fingerprint (every predefined parrot by stratum, randomized seeds, fingerprinted copies, generated specs) observed over one real connection (hellos reassembled from the wire, incl. the hello after a HelloRetryRequest) plus 23 further ClientHellos built in the same world, plus one QUIC-style spec with GREASE transport parameters and a GREASE version-information entry; within-hello rules on every hello; freshness = >=2 distinct values among the 24 draws of each GREASE kind the fingerprint carries; non-trivial = the hello carries a GREASE value; distinct = (fingerprint, GREASE tuple of the wire hello)",
+		Rule: "(30% of the parrot worlds build the hello explicitly, then build two other connections of the same parrot, then handshake) a world = one fingerprint (every predefined parrot by stratum, randomized seeds, fingerprinted copies, generated specs) observed over one real connection (hellos reassembled from the wire, incl. the hello after a HelloRetryRequest) plus 23 further ClientHellos built in the same world, plus one QUIC-style spec with GREASE transport parameters and a GREASE version-information entry; within-hello rules on every hello; freshness = >=2 distinct values among the 24 draws of each GREASE kind the fingerprint carries; non-trivial = the hello carries a GREASE value; distinct = (fingerprint, GREASE tuple of the wire hello)",
 		Assumptions: []string{"freshness threshold: 24 draws of a 16-valued GREASE nibble are all equal with probability 16^-23 for a uniform source; the world's random stream is a PRNG owned by the simulator, so a pass is a deterministic function of the seed"},
 		Real:        []string{"utls client from /repo", "utls or std server"},
 		Stub:        []string{"transport, clock, crypto/rand"},
@@ -78,6 +78,24 @@ func runC04(c *Ctx) {
 	}
 	sp := &ConnSpec{ID: useID, Spec: useSpec, CCfg: mk(), Peer: peer, SCfg: scfg, StdCfg: stdcfg, Payload: [][]byte{[]byte("x")},
 		Setup: func(l *simnet.Link) { l.Frag = ch.Bool(30, "frag") }}
+	// interleaving with a second connection of the same fingerprint: this connection builds its
+	// hello explicitly, another UConn of the same ID (own Config) is built, then this one
+	// handshakes (which marshals again): GREASE values of one connection belong to it alone
+	if kind == "id" && ch.Bool(30, "interleaved-build") {
+		sp.Prep = func(u *tls.UConn) error {
+			if err := u.BuildHandshakeState(); err != nil {
+				return err
+			}
+			for k := 0; k < 2; k++ {
+				other := tls.UClient(nil, mk(), useID)
+				if err := other.BuildHandshakeState(); err != nil {
+					return nil
+				}
+			}
+			return nil
+		}
+		c.Probe("interleaved-build")
+	}
 	o := RunConn(c, w, sp)
 	c.Finish(w, true)
 	obs := ObserveHellos(o.Link)
